@@ -44,10 +44,11 @@ pub fn check(sh: &Shared, c: &Case) -> Check {
     let fi = c.fi.min(2);
     let f = fmts::e(fi);
     let l = fmts::l(fi);
-    sh.eval();
     sh.class(&format!("format/{}", fmts::FMT_NAMES[fi]));
     sh.class(&format!("len/{}", c.inputs.len()));
     let texts: Vec<&str> = c.inputs.iter().map(|(_, s)| s.as_str()).collect();
+    // evaluations count POSITIONS of the generated sequences (each is compared with its lone parse)
+    sh.evals(texts.len().max(1) as u64);
     for (k, _) in &c.inputs {
         sh.class(&format!("input/{k}"));
     }
